@@ -60,6 +60,12 @@ FLAVOURS = {
     "W_tsan": ("gcc", ["-O1", "-g", "-fsanitize=thread", "-fno-omit-frame-pointer"], ["-DDRV_WIDE"]),
 }
 
+# Coverage measurement of the generators (tools/coverage.py): VERIF_COV=1 instruments the plain flavours.
+COV = bool(os.environ.get("VERIF_COV"))
+if COV:
+    FLAVOURS["A"] = ("gcc", ["-O0", "-g", "--coverage"], [])
+    FLAVOURS["W"] = ("gcc", ["-O0", "-g", "--coverage"], ["-DDRV_WIDE"])
+
 def project_version():
     try:
         txt = open(os.path.join(REPO, "CMakeLists.txt")).read()
@@ -75,7 +81,7 @@ def build_impl(flavours=("A", "W", "A_asan", "W_asan"), extra_defines=(), driver
     srcdir = os.path.join(REPO, "src"); incdir = os.path.join(REPO, "include")
     hdir = os.path.join(VERIF, "harness")
     key = tree_hash([srcdir, incdir, hdir, os.path.join(REPO, "CMakeLists.txt")]) + "-" + \
-        hashlib.sha256((" ".join(extra_defines) + driver).encode()).hexdigest()[:6]
+        hashlib.sha256((" ".join(extra_defines) + driver).encode()).hexdigest()[:6] + ("-cov" if COV else "")
     out = os.path.join(BUILD, "impl", key)
     os.makedirs(out, exist_ok=True)
     os.utime(out, None)
